@@ -119,6 +119,44 @@ pub fn worker_bin(shard: usize, _nshards: usize, seed: u64, tier: &str, out: &mu
             }
             out.end();
         }
+        // a long accepted record whose tail is one odd token repeated hundreds of times (null
+        // moves, moves from a square to itself, moves of nothing): whatever the reader makes of
+        // such a token, the length limit must hold for it too
+        for (base, tok) in [(398usize, "0000"), (300, "0000"), (398, "a1a1"), (390, "e1e1"), (398, "a3a3"), (396, "0000 g1f3 0000 g8f6")] {
+            let tag = tok.split(' ').next().unwrap_or("");
+            if (base + tag.len() + tag.as_bytes()[0] as usize) % 2 != shard % 2 && tier != "thorough" {
+                continue;
+            }
+            let mut moves: Vec<String> = (0..base).map(|i| shuffle[i % 4].to_string()).collect();
+            for _ in 0..700 {
+                moves.push(tok.to_string());
+            }
+            let case = json!({"kind":"odd-token-tail","plies":base,"token":tok,"repeats":700});
+            out.begin(&case);
+            let Ok(mut s) = Session::spawn(&engine_bin(true), &[], &[], None) else {
+                out.inconclusive("cannot start the checked binary");
+                return;
+            };
+            s.keep_log = false;
+            s.send_bulk(&format!("position startpos moves {}\nshow\ngo depth 6\nisready\n", moves.join(" ")));
+            let mut alive = s.wait_out(Duration::from_secs(30), |t| t == "readyok").is_some();
+            if alive {
+                s.send("stop");
+                s.send("isready");
+                alive = s.wait_out(Duration::from_secs(30), |t| t == "readyok").is_some();
+            }
+            out.add("odd_token_tail_runs", 1);
+            if !alive {
+                let st = s.wait_exit(Duration::from_secs(3));
+                out.viol("C15", &format!("C15|odd-tail|{base}|{tok}"),
+                    &format!("{base}-ply record + 700 x `{tok}` + show + go depth 6 on the {b} build: engine died or fell silent ({st:?}): {}",
+                        s.stderr_text().lines().filter(|x| !x.trim().is_empty()).take(4).collect::<Vec<_>>().join(" / ")), case);
+            } else {
+                s.send("quit");
+                let _ = s.wait_exit(Duration::from_secs(5));
+            }
+            out.end();
+        }
         // a long accepted record followed by many searches without a new `position`: whatever
         // the engine keeps between searches must not grow past the capacity budget
         for (l, gos, go) in [(398usize, 150usize, "go depth 1"), (398, 150, "go movetime 1"), (396, 150, "go depth 2"), (300, 260, "go depth 1")] {
